@@ -1,5 +1,500 @@
-//! C11 (stub)
-pub fn main(sub: &str, _args: &[String]) -> i32 {
-    eprintln!("unknown subcommand {}", sub);
-    2
+//! C11: attribute value normalization and defaulting.
+//!
+//!   doc-attr-replay --in <REPLAY file> --out <ndjson>
+//!       every REPLAY case of MC_Attr.tla (document text as code points + expected effective
+//!       attributes) is parsed in both views and what the public DOM API reports is recorded.
+//!   doc-attr-record --seed N --count K --out <ndjson>
+//!       seeded random abstract documents (longer literals, wider alphabet, nested entities, several
+//!       elements / ATTLISTs / attributes), rendered by the twin of AttrSurface.Render, observed the
+//!       same way.
+//!   doc-attr-observe --in <ndjson of events or cases> --out <ndjson>
+//!       re-observe stored events (replay of a stored case).
+//!
+//! The harness never judges.  `fast: true` only says that the observation is literally the REPLAY
+//! expectation (fast path for "ok"); everything else is judged by spec/Trace_Attr.tla.
+use crate::util::*;
+use rand::rngs::StdRng;
+use rand::{Rng, SeedableRng};
+use serde_json::{json, Value as J};
+use std::io::Write;
+use xml_dom::{Attr, Document, Element, NamedNodeMap, Node};
+
+// ------------------------------------------------------------------------------------------------
+// observation through the public DOM API
+
+fn observe_element(e: &xml_dom::XmlElement, ask: &[String]) -> J {
+    let attrs = guarded(|| {
+        let mut out = vec![];
+        let mut len = -1i64;
+        if let Some(map) = e.attributes() {
+            len = map.length() as i64;
+            for a in map.iter() {
+                let name = guarded(|| a.name());
+                let spec = guarded(|| a.specified());
+                let val = guarded(|| a.value());
+                let (v, st) = match val {
+                    Ok(Ok(s)) => (string_to_cps(&s), "ok"),
+                    Ok(Err(_)) => (json!([]), "err"),
+                    Err(_) => (json!([]), "panic"),
+                };
+                out.push(json!({
+                    "n": string_to_cps(&name.unwrap_or_else(|_| "?panic".to_string())),
+                    "v": v,
+                    "st": st,
+                    // a string, so that the field has one type in TLA+ ("T" / "F" / "panic")
+                    "spec": match spec { Ok(true) => "T", Ok(false) => "F", Err(_) => "panic" },
+                }));
+            }
+        }
+        (len, out)
+    });
+    let (len, attrs, st) = match attrs {
+        Ok((len, out)) => (len, out, if len < 0 { "noattrs" } else { "ok" }),
+        Err(_) => (-1, vec![], "panic"),
+    };
+    let get: Vec<J> = ask
+        .iter()
+        .map(|n| match guarded(|| e.get_attribute(n)) {
+            Ok(s) => json!({"n": string_to_cps(n), "v": string_to_cps(&s), "st": "ok"}),
+            Err(_) => json!({"n": string_to_cps(n), "v": [], "st": "panic"}),
+        })
+        .collect();
+    json!({"st": st, "len": len, "attrs": attrs, "get": get})
+}
+
+fn observe_doc(doc: &xml_dom::XmlDocument, ask: &[Vec<String>]) -> (String, Vec<J>) {
+    let root = match guarded(|| doc.document_element()) {
+        Ok(Ok(r)) => r,
+        Ok(Err(_)) => return ("noroot".to_string(), vec![]),
+        Err(_) => return ("panic".to_string(), vec![]),
+    };
+    let empty: Vec<String> = vec![];
+    let mut els = vec![observe_element(&root, ask.first().unwrap_or(&empty))];
+    let kids = guarded(|| {
+        let mut v = vec![];
+        for k in root.child_nodes().iter() {
+            if let Some(e) = k.as_element() {
+                v.push(e);
+            }
+        }
+        v
+    });
+    match kids {
+        Ok(kids) => {
+            for (i, k) in kids.iter().enumerate() {
+                els.push(observe_element(k, ask.get(i + 1).unwrap_or(&empty)));
+            }
+            ("ok".to_string(), els)
+        }
+        Err(_) => ("panic".to_string(), els),
+    }
+}
+
+fn observe_view(text: &str, expanded: bool, ask: &[Vec<String>]) -> J {
+    let r = guarded(|| {
+        let parsed = if expanded {
+            xml_dom::XmlDocument::from_raw_with_context(
+                text,
+                xml_dom::Context::from_text_expanded(true),
+            )
+        } else {
+            xml_dom::XmlDocument::from_raw(text)
+        };
+        match parsed {
+            Ok((rest, doc)) => {
+                if !rest.is_empty() {
+                    ("rest".to_string(), vec![])
+                } else {
+                    observe_doc(&doc, ask)
+                }
+            }
+            Err(_) => ("err".to_string(), vec![]),
+        }
+    });
+    let (parse, els) = r.unwrap_or_else(|_| ("panic".to_string(), vec![]));
+    json!({"view": if expanded { "exp" } else { "raw" }, "parse": parse, "els": els})
+}
+
+fn observe(text: &str, ask: &[Vec<String>]) -> J {
+    json!([observe_view(text, false, ask), observe_view(text, true, ask)])
+}
+
+fn ask_of(case: &J) -> Vec<Vec<String>> {
+    case["ask"]
+        .as_array()
+        .map(|els| {
+            els.iter()
+                .map(|names| {
+                    names
+                        .as_array()
+                        .map(|ns| ns.iter().map(cps_to_string).collect())
+                        .unwrap_or_default()
+                })
+                .collect()
+        })
+        .unwrap_or_default()
+}
+
+/// exact equality of an observation with the REPLAY expectation (fast path for "ok" only)
+fn is_fast(views: &J, expect: &J, ask: &[Vec<String>]) -> bool {
+    let exp_els = match expect.as_array() {
+        Some(a) => a,
+        None => return false,
+    };
+    for view in views.as_array().unwrap() {
+        if view["parse"] != "ok" {
+            return false;
+        }
+        let els = view["els"].as_array().unwrap();
+        if els.len() != exp_els.len() {
+            return false;
+        }
+        for (i, (o, x)) in els.iter().zip(exp_els.iter()).enumerate() {
+            let x = x.as_array().unwrap();
+            if o["st"] != "ok" || o["len"].as_i64() != Some(x.len() as i64) {
+                return false;
+            }
+            let mut got: Vec<(String, String, bool)> = vec![];
+            for a in o["attrs"].as_array().unwrap() {
+                if a["st"] != "ok" || a["spec"] == "panic" {
+                    return false;
+                }
+                got.push((cps_to_string(&a["n"]), cps_to_string(&a["v"]), a["spec"] == "T"));
+            }
+            let mut want: Vec<(String, String, bool)> = x
+                .iter()
+                .map(|a| (cps_to_string(&a["n"]), cps_to_string(&a["v"]), a["spec"].as_bool().unwrap_or(false)))
+                .collect();
+            got.sort();
+            want.sort();
+            if got != want {
+                return false;
+            }
+            let gets = o["get"].as_array().unwrap();
+            if gets.len() != ask.get(i).map(|a| a.len()).unwrap_or(0) {
+                return false;
+            }
+            for g in gets {
+                if g["st"] != "ok" {
+                    return false;
+                }
+                let n = cps_to_string(&g["n"]);
+                let v = cps_to_string(&g["v"]);
+                let w = want.iter().find(|w| w.0 == n).map(|w| w.1.clone()).unwrap_or_default();
+                if v != w {
+                    return false;
+                }
+            }
+        }
+    }
+    true
+}
+
+fn replay(args: &[String]) -> i32 {
+    let inp = arg_value(args, "--in").unwrap_or("-");
+    let out = arg_value(args, "--out").unwrap_or("-");
+    let mut w = open_out(out);
+    let mut n = 0u64;
+    for_each_case(inp, |case| {
+        n += 1;
+        let text = cps_to_string(&case["text"]);
+        let ask = ask_of(&case);
+        let views = observe(&text, &ask);
+        let fast = is_fast(&views, &case["expect"], &ask);
+        let mut rec = json!({"k": case["k"], "id": n, "views": views, "fast": fast});
+        if case["k"] == "mc" {
+            rec["abs"] = case["abs"].clone();
+        } else {
+            rec["doc"] = case["doc"].clone();
+        }
+        if !fast || case["k"] != "mc" {
+            // kept so that the stored event can be re-observed (--replay); Trace_Attr.tla checks
+            // that it is the specification's rendering of the abstract case
+            rec["text"] = case["text"].clone();
+            rec["ask"] = case["ask"].clone();
+        }
+        writeln!(w, "{}", rec).unwrap();
+    });
+    0
+}
+
+// ------------------------------------------------------------------------------------------------
+// twin of AttrSurface.Render (only used by the random driver; Trace_Attr.tla re-renders the
+// recorded abstract document with the specification's operator and compares the texts)
+
+fn name_of(v: &J) -> String {
+    cps_to_string(v)
+}
+
+fn render_items(items: &J, out: &mut String) {
+    for it in items.as_array().unwrap() {
+        let c = it["c"].as_u64().unwrap_or(0) as u32;
+        match it["t"].as_str().unwrap() {
+            "c" => out.push(char::from_u32(c).unwrap()),
+            "r" => {
+                if c >= 64 {
+                    out.push_str(&format!("&#x{:X};", c));
+                } else {
+                    out.push_str(&format!("&#{};", c));
+                }
+            }
+            _ => {
+                out.push('&');
+                out.push_str(&name_of(&it["n"]));
+                out.push(';');
+            }
+        }
+    }
+}
+
+fn quoted(items: &J, out: &mut String) {
+    out.push('"');
+    render_items(items, out);
+    out.push('"');
+}
+
+fn type_text(ty: &str) -> &str {
+    match ty {
+        "ENUM" => "(a|b|d)",
+        "NOTATION" => "NOTATION (a|b)",
+        other => other,
+    }
+}
+
+fn render_tag(e: &J, out: &mut String) {
+    out.push_str(&name_of(&e["el"]));
+    for w in e["written"].as_array().unwrap() {
+        out.push(' ');
+        out.push_str(&name_of(&w["n"]));
+        out.push('=');
+        quoted(&w["v"], out);
+    }
+}
+
+fn render(doc: &J) -> String {
+    let mut s = String::new();
+    let els = doc["els"].as_array().unwrap();
+    s.push_str("<!DOCTYPE ");
+    s.push_str(&name_of(&els[0]["el"]));
+    s.push_str(" [\n");
+    for e in doc["ents"].as_array().unwrap() {
+        s.push_str("<!ENTITY ");
+        s.push_str(&name_of(&e["n"]));
+        s.push(' ');
+        quoted(&e["v"], &mut s);
+        s.push_str(">\n");
+    }
+    for a in doc["attlists"].as_array().unwrap() {
+        s.push_str("<!ATTLIST ");
+        s.push_str(&name_of(&a["el"]));
+        for d in a["defs"].as_array().unwrap() {
+            s.push(' ');
+            s.push_str(&name_of(&d["n"]));
+            s.push(' ');
+            s.push_str(type_text(d["ty"].as_str().unwrap()));
+            s.push(' ');
+            match d["dk"].as_str().unwrap() {
+                "IMPLIED" => s.push_str("#IMPLIED"),
+                "REQUIRED" => s.push_str("#REQUIRED"),
+                "VALUE" => quoted(&d["dv"], &mut s),
+                _ => {
+                    s.push_str("#FIXED ");
+                    quoted(&d["dv"], &mut s);
+                }
+            }
+        }
+        s.push_str(">\n");
+    }
+    s.push_str("]>");
+    if els.len() == 1 {
+        s.push('<');
+        render_tag(&els[0], &mut s);
+        s.push_str("/>");
+    } else {
+        s.push('<');
+        render_tag(&els[0], &mut s);
+        s.push('>');
+        for e in &els[1..] {
+            s.push('<');
+            render_tag(e, &mut s);
+            s.push_str("/>");
+        }
+        s.push_str("</");
+        s.push_str(&name_of(&els[0]["el"]));
+        s.push('>');
+    }
+    s
+}
+
+// ------------------------------------------------------------------------------------------------
+// random abstract documents
+
+const LIT_CHARS: [u32; 14] = [97, 98, 122, 32, 32, 9, 10, 13, 233, 26085, 128512, 62, 39, 93];
+const REF_CHARS: [u32; 9] = [32, 9, 10, 13, 65, 233, 128512, 39, 62];
+const TYPES: [&str; 10] = [
+    "CDATA", "ID", "IDREF", "IDREFS", "ENTITY", "ENTITIES", "NMTOKEN", "NMTOKENS", "ENUM", "NOTATION",
+];
+const KINDS: [&str; 4] = ["IMPLIED", "REQUIRED", "VALUE", "FIXED"];
+
+fn cps(s: &str) -> J {
+    string_to_cps(s)
+}
+
+fn rand_items(rng: &mut StdRng, max: usize, ents: &[String], in_entity: bool) -> J {
+    let n = rng.gen_range(0..=max);
+    let mut v = vec![];
+    for _ in 0..n {
+        let r = rng.gen_range(0..100);
+        if r < 50 {
+            let c = LIT_CHARS[rng.gen_range(0..LIT_CHARS.len())];
+            v.push(json!({"t": "c", "c": c}));
+        } else if r < 72 {
+            let c = REF_CHARS[rng.gen_range(0..REF_CHARS.len())];
+            v.push(json!({"t": "r", "c": c}));
+        } else if r < 90 && !ents.is_empty() {
+            let e = &ents[rng.gen_range(0..ents.len())];
+            v.push(json!({"t": "e", "n": cps(e)}));
+        } else {
+            let pre = if in_entity {
+                ["amp", "gt", "apos", "quot", "lt"][rng.gen_range(0..5)]
+            } else {
+                ["amp", "lt", "gt", "apos", "quot"][rng.gen_range(0..5)]
+            };
+            v.push(json!({"t": "e", "n": cps(pre)}));
+        }
+    }
+    J::Array(v)
+}
+
+fn rand_doc(rng: &mut StdRng) -> J {
+    // entities e1..ek; entity i may only refer to lower-numbered ones (declared before use, acyclic,
+    // chains of depth up to k)
+    let k = rng.gen_range(0..=5);
+    let mut names: Vec<String> = vec![];
+    let mut ents = vec![];
+    for i in 1..=k {
+        let v = rand_items(rng, 6, &names, true);
+        let n = format!("e{}", i);
+        ents.push(json!({"n": cps(&n), "v": v}));
+        names.push(n);
+    }
+    // elements
+    let child_types = ["c", "d"];
+    let nch = rng.gen_range(0..=2);
+    let mut el_names = vec!["r".to_string()];
+    for _ in 0..nch {
+        el_names.push(child_types[rng.gen_range(0..2)].to_string());
+    }
+    // attlists
+    let att_names = ["a", "b", "c", "id"];
+    let decl_els = ["r", "c", "d", "q"];
+    let nal = rng.gen_range(0..=4);
+    let mut attlists = vec![];
+    for _ in 0..nal {
+        let el = decl_els[rng.gen_range(0..decl_els.len())];
+        let nd = rng.gen_range(1..=3);
+        let mut defs = vec![];
+        for _ in 0..nd {
+            let n = att_names[rng.gen_range(0..att_names.len())];
+            let ty = TYPES[rng.gen_range(0..TYPES.len())];
+            let dk = KINDS[rng.gen_range(0..KINDS.len())];
+            let dv = if dk == "VALUE" || dk == "FIXED" {
+                rand_items(rng, 6, &names, false)
+            } else {
+                json!([])
+            };
+            defs.push(json!({"n": cps(n), "ty": ty, "dk": dk, "dv": dv}));
+        }
+        attlists.push(json!({"el": cps(el), "defs": defs}));
+    }
+    let wr_names = ["a", "b", "c", "x"];
+    let mut els = vec![];
+    for el in &el_names {
+        let mut written = vec![];
+        for n in wr_names {
+            if rng.gen_range(0..100) < 45 {
+                written.push(json!({"n": cps(n), "v": rand_items(rng, 12, &names, false)}));
+            }
+        }
+        els.push(json!({"el": cps(el), "written": written}));
+    }
+    json!({"ents": ents, "attlists": attlists, "els": els})
+}
+
+/// names to ask get_attribute for: written or declared for the element type, plus one absent name
+fn ask_for_doc(doc: &J) -> Vec<Vec<String>> {
+    let mut out = vec![];
+    for e in doc["els"].as_array().unwrap() {
+        let mut names: Vec<String> = vec![];
+        for w in e["written"].as_array().unwrap() {
+            names.push(name_of(&w["n"]));
+        }
+        for a in doc["attlists"].as_array().unwrap() {
+            if a["el"] == e["el"] {
+                for d in a["defs"].as_array().unwrap() {
+                    names.push(name_of(&d["n"]));
+                }
+            }
+        }
+        names.push("absent".to_string());
+        names.sort();
+        names.dedup();
+        out.push(names);
+    }
+    out
+}
+
+fn record(args: &[String]) -> i32 {
+    let seed: u64 = arg_value(args, "--seed").and_then(|s| s.parse().ok()).unwrap_or(1);
+    let count: u64 = arg_value(args, "--count").and_then(|s| s.parse().ok()).unwrap_or(1000);
+    let out = arg_value(args, "--out").unwrap_or("-");
+    let mut w = open_out(out);
+    let mut rng = StdRng::seed_from_u64(seed.wrapping_mul(0x9E37_79B9_7F4A_7C15) ^ 0xC11);
+    for i in 1..=count {
+        let doc = rand_doc(&mut rng);
+        let text = render(&doc);
+        let ask = ask_for_doc(&doc);
+        let views = observe(&text, &ask);
+        let rec = json!({"k": "rnd", "id": i, "doc": doc, "text": string_to_cps(&text), "views": views,
+                         "fast": false});
+        writeln!(w, "{}", rec).unwrap();
+    }
+    0
+}
+
+/// re-observe stored events / cases (used by `./check C11 --replay`)
+fn reobserve(args: &[String]) -> i32 {
+    let inp = arg_value(args, "--in").unwrap_or("-");
+    let out = arg_value(args, "--out").unwrap_or("-");
+    let mut w = open_out(out);
+    let mut n = 0u64;
+    for_each_case(inp, |case| {
+        n += 1;
+        let mut rec = json!({"k": case["k"], "id": n, "fast": false});
+        let text = cps_to_string(&case["text"]);
+        let ask = if case["k"] == "mc" {
+            rec["abs"] = case["abs"].clone();
+            ask_of(&case)
+        } else {
+            rec["doc"] = case["doc"].clone();
+            ask_for_doc(&case["doc"])
+        };
+        rec["text"] = case["text"].clone();
+        rec["ask"] = case["ask"].clone();
+        rec["views"] = observe(&text, &ask);
+        writeln!(w, "{}", rec).unwrap();
+    });
+    0
+}
+
+pub fn main(sub: &str, args: &[String]) -> i32 {
+    match sub {
+        "doc-attr-replay" => replay(args),
+        "doc-attr-record" => record(args),
+        "doc-attr-observe" => reobserve(args),
+        _ => {
+            eprintln!("unknown subcommand {}", sub);
+            2
+        }
+    }
 }
